@@ -4,7 +4,8 @@ Spec: spec/CFI.tla (section scan: Enc/View/reader machine; instruction table; se
 interpreter, one operator per DW_CFA opcode) and spec/trace/CFITrace.tla (same interpreter
 operators, total verdict).
 
-G: TLC enumerates abstract sections (scan mode), FDE programs (prog mode) and long random programs
+G: TLC enumerates abstract sections (scan mode; scanz mode: .eh_frame terminators that are not the last
+   record, set-valued expectation), FDE programs (prog mode) and long random programs
    (sim mode) and writes bytes + the view a correct reader reports + the decoded tables.  The driver
    hands the bytes to CallFrameInfo(...).get_entries() (and, for a sample, to
    DWARFInfo.CFI_entries/EH_CFI_entries) and compares kinds, offsets, header fields,
@@ -29,7 +30,7 @@ LEVEL = 'model_checking'
 
 JAVA_ENV = {'JAVA_TOOL_OPTIONS': '-Xss32m'}      # the recursive operators need a deeper stack for 30-step programs
 
-SCAN_TAGS = ('debug64', 'eh_noz', 'eh_noR')
+SCAN_TAGS = ('debug64', 'eh_noz', 'eh_noR', 'mid_terminator')
 
 
 # ----------------------------------------------------------------------------- denotation
@@ -227,9 +228,18 @@ def replay_case(case, n):
             obs2 = {'exc': type(ex).__name__}
         if obs2 != obs:
             mm('scan.dwarfinfo_api', stag, -1, obs, obs2)
-    if [[e['k'], e['off']] for e in obs] != [[e['k'], e['off']] for e in exp]:
-        mm('scan.entries', stag, -1, [[e['k'], e['off']] for e in exp], [[e['k'], e['off']] for e in obs])
-        return out, nontrivial
+    ko = [[e['k'], e['off']] for e in obs]
+    ke = [[e['k'], e['off']] for e in exp]
+    term = case.get('term', 0)
+    if ko != ke:
+        # records after a terminator: the spec's expectation is set-valued (CFI.tla header: LSB 10.6.1 "number of
+        # records determined by the section size" / 10.6.1.1 "processing shall end"): all records, or exactly the
+        # records up to and including the first terminator (`term` of them, computed by the spec)
+        if term and ko == ke[:term]:
+            exp = exp[:term]
+        else:
+            mm('scan.entries', stag, -1, [ke] + ([ke[:term]] if term else []), ko)
+            return out, nontrivial
     for i, (e, o) in enumerate(zip(exp, obs)):
         k = e['k'].lower()
         for fld in e:
@@ -527,10 +537,11 @@ def replay(run, path):
 def check(run):
     quick = run.tier == 'quick'
     if quick:
-        cfgs = [('CFI_scan_quick', None, None), ('CFI_prog1_quick', None, None), ('CFI_prog3_quick', None, None),
-                ('CFI_sim', 1500, 31)]
+        cfgs = [('CFI_scan_quick', None, None), ('CFI_scanz_quick', None, None), ('CFI_prog1_quick', None, None),
+                ('CFI_prog3_quick', None, None), ('CFI_sim', 1500, 31)]
     else:
-        cfgs = [('CFI_scan_thorough', None, None), ('CFI_prog1_quick', None, None), ('CFI_prog2_thorough', None, None),
+        cfgs = [('CFI_scan_thorough', None, None), ('CFI_scanz_thorough', None, None), ('CFI_prog1_quick', None, None),
+                ('CFI_prog2_thorough', None, None),
                 ('CFI_prog4_thorough', None, None), ('CFI_sim_thorough', 5000, 61)]
     counters = {}
     per_cfg = {}
@@ -556,6 +567,8 @@ def check(run):
         'locations never wrap, encoded pointers stay inside [0, 2^(8*address size)), no null raw value under pcrel',
         'CIE v4 address_size equals the address size handed to CallFrameInfo; segment_size = 0',
         'DW_CFA_set_loc in .eh_frame only under an absptr FDE encoding',
+        'records after an .eh_frame terminator: a reader may report all records or stop after the first terminator '
+        '(LSB 10.6.1 vs 10.6.1.1, see spec/CFI.tla); whatever is reported is compared field by field',
         'T: corpus sections the library cannot parse are listed in notes, not judged',
         'denote(): digit strings -> int is trusted']
     run.extra['exhaustive'] = False
